@@ -18,7 +18,8 @@ pub enum Mode {
 
 #[derive(Clone, Debug)]
 pub struct Case {
-    /// 'v' Vec by value, 'k' iterator with exact size hint, 'u' iterator of unknown length
+    /// 'v' Vec by value, 'k' iterator with exact size hint, 'u' iterator of unknown length;
+    /// 'V' / 'K' / 'U': the same over drop-observing `Canary` items
     pub src_kind: char,
     pub input: Vec<u64>,
     pub ops: Vec<OpD>,
@@ -147,6 +148,8 @@ pub struct RunResult {
     pub rec: RecState,
     pub granted: Vec<u32>,
     pub wall_us: u128,
+    /// canary runs: (created, dropped, live, bad) after the result has been dropped
+    pub ledger: Option<(u64, u64, u64, u64)>,
 }
 
 pub fn run_case(c: &Case) -> RunResult {
@@ -166,8 +169,22 @@ pub fn run_case(c: &Case) -> RunResult {
     let mut ctx = Ctx::new(c.ops.clone(), c.sets.clone(), c.term.clone());
     let kinds = c.kinds();
     let t0 = std::time::Instant::now();
+    let is_canary = c.src_kind.is_ascii_uppercase();
+    if is_canary {
+        crate::canary::reset();
+    }
+    fn keep(_: &crate::canary::Canary) -> bool {
+        true
+    }
     let res = catch_unwind(AssertUnwindSafe(|| match c.src_kind {
         'v' => chains::run_chain_vec(&kinds, c.input.clone(), &mut ctx),
+        'V' => chains::run_chain_cvec(&kinds, c.input.iter().map(|x| crate::canary::Canary::new(*x)).collect(), &mut ctx),
+        'K' => chains::run_chain_citer(&kinds, c.input.iter().map(|x| crate::canary::Canary::new(*x)).collect::<Vec<_>>().into_iter(), &mut ctx),
+        'U' => chains::run_chain_cfil(
+            &kinds,
+            c.input.iter().map(|x| crate::canary::Canary::new(*x)).collect::<Vec<_>>().into_iter().filter(keep as fn(&crate::canary::Canary) -> bool),
+            &mut ctx,
+        ),
         k => chains::run_chain_iter(&kinds, InstrIter { data: c.input.clone(), pos: 0, exact: k == 'k' }, &mut ctx),
     }));
     let wall_us = t0.elapsed().as_micros();
@@ -186,7 +203,8 @@ pub fn run_case(c: &Case) -> RunResult {
             Outcome::Panic
         }
     };
-    RunResult { outcome, params_trace: ctx.params_trace, effects_trace: ctx.effects_trace, rec, granted, wall_us }
+    let ledger = if is_canary { Some(crate::canary::ledger()) } else { None };
+    RunResult { outcome, params_trace: ctx.params_trace, effects_trace: ctx.effects_trace, rec, granted, wall_us, ledger }
 }
 
 /// one observed chunk: a maximal run of consecutive source positions evaluated back to back by
